@@ -575,8 +575,15 @@ class FastSimulation(object):
             with open(self.code_file, 'w') as file:
                 file.write(s)
 
-        self.tracer._set_initial_values(self.default_value, self.regs.copy(),
-                                        copy.deepcopy(self.mems))
+        # recorded the same way Simulation does (by Register object and by memory id), which
+        # is how output_verilog_testbench looks them up
+        init_regvalue = {r: self.regs[r.name] for r in reg_set}
+        init_memvalue = {}
+        for net in self.block.logic_subset('m@'):
+            mem = net.op_param[1]
+            if not isinstance(mem, RomBlock):
+                init_memvalue[mem.id] = copy.deepcopy(self.mems[self._mem_varname(mem)])
+        self.tracer._set_initial_values(self.default_value, init_regvalue, init_memvalue)
 
         context = {}
         logic_creator = compile(s, '<string>', 'exec')
